@@ -5,14 +5,15 @@ import json, os, re, shutil, subprocess, sys
 HERE = os.path.dirname(os.path.dirname(os.path.abspath(__file__)))
 pid = sys.argv[1]
 extra = sys.argv[2:]
-src = '/tmp/seed/%s' % pid
+src = os.path.join(os.environ.get('SEED_SRC', '/tmp/seed'), pid)
+filed_as = dict(zip('AB', os.environ.get('SEED_LETTERS', 'AB')))    # round 2 is filed as C/D
 notes = open(os.path.join(src, 'notes.md')).read() if os.path.exists(os.path.join(src, 'notes.md')) else ''
 for letter in 'AB':
     patch = os.path.join(src, 'patch%s.diff' % letter)
     demo = os.path.join(src, 'demo%s.py' % letter)
     if not os.path.exists(patch):
         print('missing', patch); continue
-    dest = os.path.join(HERE, 'seeded', '%s-%s' % (pid, letter))
+    dest = os.path.join(HERE, 'seeded', '%s-%s' % (pid, filed_as[letter]))
     os.makedirs(dest, exist_ok=True)
     shutil.copy(patch, os.path.join(dest, 'patch.diff'))
     if os.path.exists(demo):
@@ -35,7 +36,7 @@ for letter in 'AB':
         demo_with = re.search(r'demo with patch:\s+exit (\d+)', out)
     keys = re.findall(r'key=(\S+)', log)
     meta = {
-        'id': '%s-%s' % (pid, letter), 'breaks_property': pid,
+        'id': '%s-%s' % (pid, filed_as[letter]), 'breaks_property': pid,
         'source': 'written by an independent sub-agent that saw only the property text and a scratch worktree',
         'needs_to_manifest': None,
         'confirmed': {
@@ -49,6 +50,8 @@ for letter in 'AB':
     }
     section = re.search(r'(?is)(#+\s*(?:change\s*)?%s\b.*?)(?=\n#+\s*(?:change\s*)?%s\b|\Z)' % (letter, 'B' if letter == 'A' else 'ZZZ'), notes)
     meta['agent_notes_excerpt'] = (section.group(1) if section else notes)[:1800]
+    needs = re.search(r'(?is)what is needed to manifest:?\**\s*(.*?)(?=\n\s*\n|\n#|\Z)', meta['agent_notes_excerpt'])
+    meta['needs_to_manifest'] = ' '.join(needs.group(1).split())[:600] if needs else None
     json.dump(meta, open(os.path.join(dest, 'meta.json'), 'w'), indent=1)
-    print('%s-%s: tests=%s demo %s->%s caught_by=%s keys=%s' % (pid, letter, meta['confirmed']['repo_tests_with_patch'],
+    print('%s-%s: tests=%s demo %s->%s caught_by=%s keys=%s' % (pid, filed_as[letter], meta['confirmed']['repo_tests_with_patch'],
           meta['confirmed']['demo_exit_without_patch'], meta['confirmed']['demo_exit_with_patch'], caught_by, meta['violation_keys_seen'][:3]))
